@@ -16,6 +16,9 @@ CHECKS = {
     'C04': ('exploration', 'runtime differential monitoring against an independent RFC 7296 / RFC 3526 / RFC 5903 implementation: direct calls (prf+, sizes, constants, DH objects incl. leading-zero secrets, key schedule) and online comparison of every derivation in simulated histories',
             'prf+ for all output lengths (quick: dense sample), transform sizes, the five MODP primes recomputed from the RFC 3526 formula, ECP public values / secrets by integer scalar multiplication, real DH objects fed peer values whose secret has a leading zero octet, the IKE key schedule (initial and rekey with old SK_d and old PRF) and KEYMAT for every PRF x INTEG x key length with 16..256-octet nonces, and end-to-end every keyring / NEWSA key in histories covering every suite and group.',
             'primality of the constants is out of reach (only equality with the published definitions); trusted base hashlib/hmac/python ints', '2/C04'),
+    'C05': ('exploration', 'runtime differential monitoring of the message codec against an independent RFC 7296 section 3 encoder/decoder: constructor-built objects vs reference bytes, parse vs abstract content, fixed-point, framing and dump oracles over seeded generated messages',
+            'Thousands of generated abstract messages (all header field combinations and payload kinds, nested SAs incl. repeated suites, IPv4/IPv6 selectors, unknown payload types, clear and inside SK) are (1) built through the library constructors and compared byte for byte with the reference encoder, (2) parsed back and compared field by field, (3) re-serialised (fixed point, also on accepted byte-mutants), (4) given unknown critical / non-critical payloads and chains that over- or under-run the data (judged by the reference decoder), (5) dumped: payload types in order, every field value visible, no exception.',
+            'only RFC-valid abstract content for the encoder comparison; the dump oracle accepts text or hex for textual identities / vendor ids', '2/C05'),
     'C06': ('exploration', 'runtime monitoring of Message.parse: exception-class oracle + executed-line budget (sys.monitoring LINE events) over structure-aware hostile corpora',
             'Every parse call is watched by a line-event counter that aborts it when it exceeds a linear budget (so a non-terminating parse is detected in-process) and its outcome must be a return, InvalidSyntax or UnsupportedCriticalPayload. Corpora: random bytes, all truncations, byte mutations, a grid over every length/next/more/count/critical field at every nesting level incl. two-field combinations, and the same applied to the plaintext of protected messages re-sealed with the right keys (bad padding, non-block ciphertext, IV only).',
             'line budget constants fixed a priori (600 + 20/byte + 5/declared DELETE SPI); two cipher suites; messages up to a few hundred bytes plus random ones up to 4096', '2/C06'),
